@@ -83,6 +83,7 @@ func newCache(options ...Option) *Cache {
 	WithSpecDirs(DefaultSpecDirs...)(c)
 	c.Lock()
 	defer c.Unlock()
+	verifPoint("op", c, "NewCache")
 
 	c.configure(options...)
 	return c
@@ -97,6 +98,7 @@ func (c *Cache) Configure(options ...Option) error {
 
 	c.Lock()
 	defer c.Unlock()
+	verifPoint("op", c, "Configure")
 
 	c.configure(options...)
 
@@ -118,6 +120,7 @@ func (c *Cache) configure(options ...Option) {
 		c.watch.start(&c.Mutex, c.refresh, c.dirErrors)
 	}
 	_ = c.refresh() // we record but ignore errors
+	verifPoint("configure.done", c)
 }
 
 // Refresh rescans the CDI Spec directories and refreshes the Cache.
@@ -126,6 +129,7 @@ func (c *Cache) configure(options ...Option) {
 func (c *Cache) Refresh() error {
 	c.Lock()
 	defer c.Unlock()
+	verifPoint("op", c, "Refresh")
 
 	// force a refresh in manual mode
 	if refreshed, err := c.refreshIfRequired(!c.autoRefresh); refreshed {
@@ -204,6 +208,7 @@ func (c *Cache) refresh() error {
 	c.specs = specs
 	c.devices = devices
 	c.errors = specErrors
+	verifPoint("refresh.done", c)
 
 	errs := []error{}
 	for _, specErrs := range specErrors {
@@ -236,6 +241,7 @@ func (c *Cache) InjectDevices(ociSpec *oci.Spec, devices ...string) ([]string, e
 
 	c.Lock()
 	defer c.Unlock()
+	verifPoint("op", c, "InjectDevices")
 
 	_, _ = c.refreshIfRequired(false) // we record but ignore errors
 
@@ -345,6 +351,7 @@ func (c *Cache) RemoveSpec(name string) error {
 func (c *Cache) GetDevice(device string) *Device {
 	c.Lock()
 	defer c.Unlock()
+	verifPoint("op", c, "GetDevice")
 
 	_, _ = c.refreshIfRequired(false) // we record but ignore errors
 
@@ -358,6 +365,7 @@ func (c *Cache) ListDevices() []string {
 
 	c.Lock()
 	defer c.Unlock()
+	verifPoint("op", c, "ListDevices")
 
 	_, _ = c.refreshIfRequired(false) // we record but ignore errors
 
@@ -376,6 +384,7 @@ func (c *Cache) ListVendors() []string {
 
 	c.Lock()
 	defer c.Unlock()
+	verifPoint("op", c, "ListVendors")
 
 	_, _ = c.refreshIfRequired(false) // we record but ignore errors
 
@@ -397,6 +406,7 @@ func (c *Cache) ListClasses() []string {
 
 	c.Lock()
 	defer c.Unlock()
+	verifPoint("op", c, "ListClasses")
 
 	_, _ = c.refreshIfRequired(false) // we record but ignore errors
 
@@ -418,6 +428,7 @@ func (c *Cache) ListClasses() []string {
 func (c *Cache) GetVendorSpecs(vendor string) []*Spec {
 	c.Lock()
 	defer c.Unlock()
+	verifPoint("op", c, "GetVendorSpecs")
 
 	_, _ = c.refreshIfRequired(false) // we record but ignore errors
 
@@ -431,6 +442,7 @@ func (c *Cache) GetSpecErrors(spec *Spec) []error {
 
 	c.Lock()
 	defer c.Unlock()
+	verifPoint("op", c, "GetSpecErrors")
 
 	if errs, ok := c.errors[spec.GetPath()]; ok {
 		errors = make([]error, len(errs))
@@ -445,6 +457,7 @@ func (c *Cache) GetSpecErrors(spec *Spec) []error {
 func (c *Cache) GetErrors() map[string][]error {
 	c.Lock()
 	defer c.Unlock()
+	verifPoint("op", c, "GetErrors")
 
 	errors := map[string][]error{}
 	for path, errs := range c.errors {
@@ -461,6 +474,7 @@ func (c *Cache) GetErrors() map[string][]error {
 func (c *Cache) GetSpecDirectories() []string {
 	c.Lock()
 	defer c.Unlock()
+	verifPoint("op", c, "GetSpecDirectories")
 
 	dirs := make([]string, len(c.specDirs))
 	copy(dirs, c.specDirs)
@@ -475,6 +489,7 @@ func (c *Cache) GetSpecDirErrors() map[string]error {
 
 	c.Lock()
 	defer c.Unlock()
+	verifPoint("op", c, "GetSpecDirErrors")
 
 	errors := make(map[string]error)
 	for dir, err := range c.dirErrors {
@@ -532,6 +547,8 @@ func (w *watch) watch(fsw *fsnotify.Watcher, m *sync.Mutex, refresh func() error
 	if watch == nil {
 		return
 	}
+	verifPoint("watch.start", m)
+	defer verifPoint("watch.exit", m)
 
 	eventMask := fsnotify.Rename | fsnotify.Remove | fsnotify.Write
 	// On macOS, we also need to watch for Create events.
@@ -555,13 +572,16 @@ func (w *watch) watch(fsw *fsnotify.Watcher, m *sync.Mutex, refresh func() error
 				}
 			}
 
+			verifPoint("watch.prelock", m, event.Name, event.Op.String())
 			m.Lock()
+			verifPoint("watch.locked", m, event.Name, event.Op.String())
 			if event.Op == fsnotify.Remove && w.tracked[event.Name] {
 				w.update(dirErrors, event.Name)
 			} else {
 				w.update(dirErrors)
 			}
 			_ = refresh()
+			verifPoint("watch.handled", m, event.Name, event.Op.String())
 			m.Unlock()
 
 		case _, ok := <-watch.Errors:
